@@ -48,7 +48,7 @@ def generate(tier, rng):
     quick = tier == "quick"
     cases = []
     n = 0
-    total = 2500 if quick else 60000
+    total = 12000 if quick else 60000
     for i in range(total):
         is_req = rng.chance(2, 3)
         cfgname = rng.choice(list(G.REQ_CFGS)) if is_req else rng.choice(list(G.RESP_CFGS))
@@ -80,7 +80,7 @@ def generate(tier, rng):
             cases.append(Case("c05-%d" % n, lines, {"sizes": [len(p) for p in parts], "tags": ["req" if is_req else "resp", "kind%d" % kind, mode]}))
             n += 1
     # every single cut of a few corrupted short streams
-    for i in range(6 if quick else 60):
+    for i in range(20 if quick else 60):
         cfgname = rng.choice(["srv", "srvs", "tiny"])
         cfg = G.REQ_CFGS[cfgname]
         data = corrupt(rng, G.rand_request(rng, cfg, small=True).render())[:90]
@@ -145,3 +145,9 @@ def search(rng, binaries, log):
         if f:
             return (c, f, il)
     return None
+
+
+def extra_checks(tier, rng, binaries, log):
+    """the REAL http_client (sim_driver client mode): see tools/clientsim.py"""
+    import clientsim
+    return clientsim.run(tier, rng.fork("client"), binaries, log, ['abort'])
